@@ -367,12 +367,41 @@ def _downstream_uses(ctx: Ctx, f: Func, evalcall: ast.Call, fld: str) -> list[Te
 def c06_3(ctx: Ctx) -> RuleResult:
     res = RuleResult("C06.3", "TERM", "a (function, realization) entry is active iff |weight| > 0; the weights are the configured ones or those of the cached function result")
     X = ctx.X
+    # value-based: every comparison that decides an entry of the flags handed to the evaluator (the `active_objectives` /
+    # `active_constraints` of each EvaluatorContext that is constructed) is `abs(W) > 0` or `W != 0`, wherever it is written
+    from ..util import deep_subterms
+
+    n_ctx = 0
+    flag_cmps = []
+    for bf, bcall in builders(ctx):
+        for c_ in calls_in(bf):
+            t_ = X.at(bf, c_)
+            if t_[0] == "call" and t_[1][0] == "global" and t_[1][1].endswith(".EvaluatorContext"):
+                for k_, v_ in t_[3]:
+                    if k_ in ("active_objectives", "active_constraints"):
+                        n_ctx += 1
+                        for g_, y in deep_subterms(ctx, bf, v_, 4):
+                            if y[0] == "cmp" and y[1] in ("<", "<=", ">", ">=", "==", "!=") and any(z[0] == "const" and z[1] in (0, 0.0) and not isinstance(z[1], bool) for z in (y[2], y[3])):
+                                if (g_.qualname, y) not in [(a_.qualname, b_) for a_, b_ in flag_cmps]:
+                                    flag_cmps.append((g_, y))
+    if n_ctx == 0:
+        raise AnalysisError("no EvaluatorContext with active flags is constructed by the request builders")
+    for g_, y in flag_cmps:
+        ny = norm(y)
+        other = ny[3] if ny[2] == C(0) else ny[2]
+        ok = (ny[1] == "<" and ny[2] == C(0) and other[0] == "call" and other[1] == G("numpy.abs")) or ny[1] == "!="
+        res.add(g_, g_.node, "active == (abs(weights) > 0): every non-zero weight is active, every zero weight inactive", ok,
+                "" if ok else f"an active flag is computed as `{show(y, 60)}`: a non-zero (e.g. negative) weight can be flagged inactive", construct=f"{g_.name}: active flag {show(y, 40)}")
     f = None
     for g in ctx.repo.funcs_in(MOD):
         if g.cls is None and "objective_weights" in g.params:
             f = g
     if f is None:
-        raise AnalysisError("active-realization helper not found")
+        if not flag_cmps:
+            raise AnalysisError("active-realization helper not found")
+        # the helper was dissolved into its callers: the value-based clause above is what can be said
+        res.floor = 2
+        return res
     rt = X.return_term(f)
     cmps = [s for s in subterms(norm(rt)) if s[0] == "cmp"]
     acts = [s for s in cmps if s[1] == "<" and s[2] == C(0)]
